@@ -185,6 +185,13 @@ def selfDelimiting : Token → Bool
   | .ident s => !isPlainIdent s.toList
   | _ => false
 
+/-- punctuation and string literals: tokens whose end does not depend on what follows -/
+def closedTok : Token → Bool
+  | .lparen | .rparen | .vecIntro | .byteVecIntro | .quote | .quasiquote | .unquote
+  | .unquoteSplicing => true
+  | .prim (.str _) => true
+  | _ => false
+
 /-- booleans and characters: may also be followed by `#` -/
 def sharpTok : Token → Bool
   | .prim (.bool _) | .prim (.chr _) => true
